@@ -212,7 +212,19 @@ func runSnapfail(rep *Report, replay string) {
 				w := &failWriter{failAtCall: f.call, budget: f.budget, forever: f.forever}
 				column.VerifSetYield(hook(w))
 				fdB, tmpB := countFds(), countTemps()
-				err := c.Snapshot(w)
+				var err error
+				sdone := make(chan struct{})
+				go func() { err = c.Snapshot(w); close(sdone) }()
+				select {
+				case <-sdone:
+				case <-time.After(20 * time.Second):
+					column.VerifSetYield(nil)
+					addV(fmt.Sprintf("[%s] Snapshot to a writer failing at call %d / after %d bytes did not return within 20 s (it blocks on a lock it holds itself)", shapes[si], w.calls, w.buf.Len()), script)
+					stuck = true
+				}
+				if stuck {
+					break
+				}
 				column.VerifSetYield(nil)
 				fdA, tmpA := countFds(), countTemps()
 				failed := w.failures > 0
